@@ -87,6 +87,31 @@ def normalised(src, tree, funcname):
     return text, t2
 
 
+def with_err_mult(src, tree, funcname):
+    """module text of `funcname` in which the optional pair `err_mult=None` is PASSED: two leading parameters `err_mult_0`,
+    `err_mult_1` and the default `err_mult=(err_mult_0, err_mult_1)` (so `err_mult is not None` holds and `err_mult[i]` is the
+    i-th argument); `x += e` rewritten as in `normalised`."""
+    f = find_def(tree, funcname)
+    _literal_check(src, f)
+    g = _Norm().visit(copy.deepcopy(f))
+    a = g.args
+    names = [x.arg for x in a.args]
+    if 'err_mult' not in names:
+        raise ExtractError('%s has no parameter err_mult' % funcname)
+    i = names.index('err_mult') - (len(a.args) - len(a.defaults))
+    if i < 0 or not (isinstance(a.defaults[i], ast.Constant) and a.defaults[i].value is None):
+        raise ExtractError('%s: default of err_mult is not None' % funcname)
+    if len(a.defaults) != len(a.args):
+        raise ExtractError('%s: parameters without default' % funcname)
+    a.defaults[i] = ast.Tuple(elts=[ast.Name(id='err_mult_0', ctx=ast.Load()), ast.Name(id='err_mult_1', ctx=ast.Load())], ctx=ast.Load())
+    a.args = [ast.arg(arg='err_mult_0'), ast.arg(arg='err_mult_1')] + a.args
+    text = ast.unparse(ast.fix_missing_locations(g)) + '\n'
+    t2 = ast.parse(text)
+    if sorted(_float_values(f)) != sorted(_float_values(t2)):
+        raise ExtractError('%s: float literals changed by normalisation' % funcname)
+    return text, t2
+
+
 def truncated(src, tree, funcname, stop, ret, drop_params=()):
     """module text holding `funcname` cut before the first top-level statement for which stop(stmt) holds, with `return <ret>`
     appended.  ExtractError if no statement matches."""
@@ -185,6 +210,13 @@ def generate(repo):
                                       const_env=cenv, params=['T']))
     parts.append(P.translate_function(src, tree, 'water_self_diffusion_coefficient', lean_name='waterDiffusivityU',
                                       const_env=cenv, params=['T'], units_mode=True))
+
+    esrc, etree = with_err_mult(src, tree, 'water_self_diffusion_coefficient')
+    EP = ['T', 'err_mult_0', 'err_mult_1']
+    parts.append(P.translate_function(esrc, etree, 'water_self_diffusion_coefficient', lean_name='waterDiffusivityErr', const_env=cenv, params=EP,
+                                      doc='`water_self_diffusion_coefficient(T, err_mult=(err_mult_0, err_mult_1))`, units=None'))
+    parts.append(P.translate_function(esrc, etree, 'water_self_diffusion_coefficient', lean_name='waterDiffusivityErrU', const_env=cenv, params=EP,
+                                      units_mode=True, doc='`water_self_diffusion_coefficient(T, units=u, err_mult=(err_mult_0, err_mult_1))`'))
 
     # ---- water permittivity (Bradley & Pitzer 1979) -----------------------------------------------
     src, tree = parse(repo, D_PERM)
